@@ -303,8 +303,11 @@ fn dict_typed<V: Val>(t: &mut Tracer, rng: &mut Rng, cx: &Ctx, var: Var, kind: K
 fn fam_dict(t: &mut Tracer, rng: &mut Rng, cx: &Ctx) {
     let var = if cx.prop == "C08" || rng.chance(1, 2) { Var::C } else { Var::B };
     let kind = *rng.pick(&kinds_for(cx.prop));
-    let np = if cx.thorough { rng.range(200, 600) } else { rng.range(80, 220) };
-    let nfb = *rng.pick(&[1u32, 1, 2, 3]);
+    let huge = cx.thorough && rng.chance(1, 12);
+    let np = if huge { rng.range(1600, 2200) } else if cx.thorough { rng.range(200, 600) } else { rng.range(80, 220) };
+    // huge: more than 16 blocks, so that blocks are closed under the default num_free_blocks
+    let nfb = if huge { 16 } else { *rng.pick(&[1u32, 1, 2, 3]) };
+    let var = if huge { Var::B } else { var };
     dict_typed::<u32>(t, rng, cx, var, kind, np, nfb);
 }
 
@@ -734,6 +737,36 @@ fn fam_bigindex(t: &mut Tracer, rng: &mut Rng, cx: &Ctx) {
     with_val!(vt, go(t, rng, &spec));
 }
 
+/// C06: a pattern longer than 255 (quick) / 65 535 (thorough) bytes: start = end - length must
+/// survive any narrower representation of the length
+fn fam_longpat(t: &mut Tracer, rng: &mut Rng, cx: &Ctx) {
+    let var = if rng.chance(1, 2) { Var::C } else { Var::B };
+    let n: usize = if cx.thorough && rng.chance(1, 2) { 66_000 + rng.below(500) } else { rng.range(260, 900) };
+    let alpha: Vec<u32> = if var == Var::C { vec![0x61, 0xe9, 0x4e16, 0x1f600] } else { vec![0, 1, 0x61, 0xff] };
+    let long: Pat = (0..n).map(|_| *rng.pick(&alpha)).collect();
+    let mut pats = vec![long.clone()];
+    pats.push(long[n - 3..].to_vec());
+    pats.push(long[..2].to_vec());
+    pats.dedup();
+    let mut seen = std::collections::HashSet::new();
+    pats.retain(|p| seen.insert(p.clone()));
+    let kind = *rng.pick(&[Kind::Std, Kind::LL, Kind::LF]);
+    let spec = BuildSpec { var, kind, entry: "new", via_builder: true, nfb: *rng.pick(&[1u32, 16]), pats };
+    let (h, pma) = ev_build::<u32>(t, &spec, &[]);
+    let Some(pma) = pma else { return };
+    let mut hay = pat_bytes(var, &vec![alpha[1]]);
+    hay.extend_from_slice(&pat_bytes(var, &long));
+    hay.extend_from_slice(&pat_bytes(var, &long[..5].to_vec()));
+    let hay = Rc::new(hay);
+    for m in kind.methods() {
+        ev_search(t, h, &pma, m, "slice", &hay, 0);
+    }
+    let (h2, p2) = ev_roundtrip(t, h, &pma, &[]);
+    for m in kind.methods() {
+        ev_search(t, h2, &p2, m, "slice", &hay, 0);
+    }
+}
+
 /// C07: the UTF-8 decoder on branch boundaries and random scalars
 fn fam_decode(t: &mut Tracer, rng: &mut Rng, _cx: &Ctx) {
     let boundaries: [u32; 14] = [
@@ -781,8 +814,10 @@ pub fn family_of(prop: &str, i: u64) -> &'static str {
             _ => "small",
         },
         "C06" => match i % 16 {
-            15 => "dict",
+            15 | 3 => "dict",
+            5 => "wide",
             7 => "bigindex",
+            11 => "longpat",
             _ => "values",
         },
         "C09" => {
@@ -852,6 +887,7 @@ pub fn run_scenario(t: &mut Tracer, prop: &str, thorough: bool, seed: u64, i: u6
         "shadow" => fam_shadow(t, &mut rng, &cx),
         "bigindex" => fam_bigindex(t, &mut rng, &cx),
         "wide" => fam_wide(t, &mut rng, &cx),
+        "longpat" => fam_longpat(t, &mut rng, &cx),
         "values" => fam_values(t, &mut rng, &cx, i),
         other => panic!("harness: unknown family {other}"),
     }));
